@@ -339,3 +339,45 @@ def run_suite(trace_dir, record, tests=None, workers=12, timeout=1500):
                 if line:
                     events.append(json.loads(line))
     return events, tail[0], p.returncode
+
+
+def judge_suite(rep, wd, record, tests, label, workers=8, timeout=2400):
+    """Run part of the repository's test-suite under recording and let TLC judge the events
+    (spec/SuiteTrace.tla).  Violations are reported on ``rep`` with keys ``suite:<label>:...``."""
+    from . import tlc
+    events, tail, rc = run_suite(wd / "suite-events", record, tests=tests, workers=workers, timeout=timeout)
+    errs = [e for e in events if e["ev"] == "RecorderError"]
+    if errs:
+        raise tlc.MachineryError(f"recorder failed: {errs[0]}")
+    if " passed" not in tail or " failed" in tail or " error" in tail:
+        # the repository's tests themselves fail on this tree: not this property's verdict, but say so
+        rep.set(f"suite_{label}_pytest", tail)
+    judged = [e for e in events if e["ev"] in ("Query", "New", "Call")]
+    counts = {}
+    for e in events:
+        if e["ev"] == "CallCounts":
+            for k, v in e["counts"].items():
+                counts[k] = counts.get(k, 0) + v
+    rep.set(f"suite_{label}", {"pytest": tail, "events_judged": len(judged), "public_calls_snapshotted": sum(counts.values()),
+                               "distinct_public_callables": len(counts)})
+    if not judged:
+        return 0
+    with open(wd / "suite_events.json", "w") as f:
+        json.dump(judged, f)
+    res = tlc.run_tlc("SuiteTrace", "Trace_Suite.cfg", wd, workers=1, timeout=1500, xmx="8g").require_ok("SuiteTrace")
+    rep.tlc(res, f"SuiteTrace[{label}]")
+    done = tlc.tagged(res.stdout, "JUDGED")
+    if not done or done[0][1] != len(judged):
+        raise tlc.MachineryError(f"SuiteTrace judged {done} of {len(judged)} events")
+    seen = set()
+    for _, pos, ev, clause in tlc.tagged(res.stdout, "REJECT"):
+        e = judged[pos - 1]
+        what = e.get("op") or e.get("cls") or f"{e.get('m')}:{e.get('d')}"
+        key = f"suite:{label}:{what}:{clause}"
+        if key in seen:
+            continue
+        seen.add(key)
+        rep.violation(key, f"while the repository test {e.get('test')} ran: {ev} event of {what}: {clause}; event {json.dumps(e)[:400]}",
+                      {"event": e})
+    rep.evaluated(len(judged), ("suite", label))
+    return len(judged)
